@@ -215,7 +215,31 @@ class Check:
             self.proof_problems.append("forbidden tokens: " + "; ".join(hits[:5]))
         if not thms:
             self.proof_problems.append("no theorems found in " + ",".join(modules))
+        if self.tier == "thorough" and not self.proof_problems:
+            self.recheck(modules)
         return not self.proof_problems
+
+    def recheck(self, modules: list[str]):
+        """thorough tier: replay the compiled declarations of the property's modules and of every Esp module they import
+        through leanchecker (the toolchain's independent kernel re-check of .olean files)"""
+        todo, seen = list(modules), []
+        while todo:
+            m = todo.pop()
+            if m in seen:
+                continue
+            seen.append(m)
+            src = LEAN / (m.replace(".", "/") + ".lean")
+            if src.exists():
+                for line in src.read_text().splitlines():
+                    if line.startswith("import Esp."):
+                        todo.append(line.split()[1])
+        try:
+            p = subprocess.run(["lake", "env", "leanchecker", *seen], cwd=LEAN, capture_output=True, text=True, timeout=1800)
+            self.rechecked = {"modules": sorted(seen), "exit": p.returncode}
+            if p.returncode != 0:
+                self.proof_problems.append("leanchecker rejected: " + (p.stdout + p.stderr)[-400:])
+        except subprocess.TimeoutExpired:
+            self.proof_problems.append("leanchecker timed out")
 
     # -- results ---------------------------------------------------------
     def violation(self, key: str, what: str, replay: dict, kind="input"):
@@ -270,6 +294,8 @@ class Check:
             "correspondence_disagreements": len(self.corr_problems),
             **self.coverage,
         }
+        if getattr(self, "rechecked", None):
+            cov["leanchecker"] = self.rechecked
         ev = {
             "property_id": self.pid, "tier": self.tier, "seed": self.seed, "level": "proof",
             "coverage": cov, "assumptions": self.assumptions, "wall_s": round(time.time() - self.t0, 2),
